@@ -92,6 +92,15 @@ class Closure:
 
 
 @dataclass
+class LocalFunc:
+    """a function defined inside a function (closes over the enclosing environment as it is at the call)"""
+
+    node: ast.FunctionDef
+    env: dict
+    mod: object
+
+
+@dataclass
 class Builtin:
     name: str
     fn: object
@@ -513,6 +522,11 @@ class Interp:
             raise BreakSignal()
         elif isinstance(st, ast.Continue):
             raise ContinueSignal()
+        elif isinstance(st, ast.FunctionDef):
+            for d in st.decorator_list:
+                if ast.unparse(d.func if isinstance(d, ast.Call) else d) not in _DROPPED_DECORATORS:
+                    raise Unsupported(f"decorator @{ast.unparse(d)} on the local function {st.name} is not modelled")
+            env[st.name] = LocalFunc(st, env, mod)
         elif isinstance(st, (ast.Import, ast.ImportFrom)):
             return
         elif isinstance(st, ast.Assert):
@@ -566,16 +580,25 @@ class Interp:
             raise Unsupported("bare raise")
         if isinstance(exc, ast.Call):
             nm = ast.unparse(exc.func)
-            args = []
-            for a in exc.args:
-                if isinstance(a, ast.Constant):
-                    args.append(a.value)
-            raise PyRaise(nm.split(".")[-1], tuple(args))
+            last = nm.split(".")[-1]
+            if _looks_like_exception_class(last) and last not in env:
+                args = []
+                for a in exc.args:
+                    if isinstance(a, ast.Constant):
+                        args.append(a.value)
+                raise PyRaise(last, tuple(args))
+            # `raise helper(...)`: the helper builds the exception object
+            val = self.eval(exc, env, mod)
+            if isinstance(val, PyRaise):
+                raise val
+            raise Unsupported(f"raise of the value of {nm}(...): not an exception object the generator models")
         if isinstance(exc, ast.Name):
             val = env.get(exc.id)
             if isinstance(val, PyRaise):
                 raise val
-            raise PyRaise(exc.id)
+            if _looks_like_exception_class(exc.id):
+                raise PyRaise(exc.id)
+            raise Unsupported(f"raise of {exc.id}: not an exception object the generator models")
         raise Unsupported("raise form")
 
     def exec_try(self, st, env, mod):
@@ -647,6 +670,8 @@ class Interp:
             return list(it)
         if isinstance(it, ModelObject) and hasattr(it, "pv_iter"):
             return it.pv_iter(self.cx)
+        if isinstance(it, Obj) and getattr(it, "record_fields", None):
+            return [it.attrs[k] for k in it.record_fields]  # a NamedTuple iterates over its fields
         if isinstance(it, Arr) and all(isinstance(d, int) for d in it.shape) and it.ndim == 1:
             return [it.at(i) for i in range(it.shape[0])]
         raise Unsupported(f"iteration over {type(it).__name__}")
@@ -799,7 +824,7 @@ class Interp:
         elif isinstance(cont, Obj):
             m = self.find_method(cont, "__setitem__")
             if m is None:
-                raise PyRaise("TypeError")
+                raise Unsupported(f"item assignment on an object of class {cont.cls} (no __setitem__ the generator can run)")
             self.call_value(m, [idx, val], {})
         elif isinstance(cont, ModelObject) and hasattr(cont, "pv_setitem"):
             cont.pv_setitem(self.cx, idx, val)
@@ -1170,7 +1195,47 @@ class Interp:
         if r is None:
             return None
         m, cn, node = r
-        return BoundMethod(obj, PyFunc(f"{m.dotted}.{cn}.{node.name}", m, cn, node))
+        pf = PyFunc(f"{m.dotted}.{cn}.{node.name}", m, cn, node)
+        decos = {ast.unparse(d.func if isinstance(d, ast.Call) else d) for d in node.decorator_list}
+        if "staticmethod" in decos:
+            return pf  # called without the instance
+        if "classmethod" in decos or "property" in decos:
+            raise Unsupported(f"@{'classmethod' if 'classmethod' in decos else 'property'} {pf.qual} is not modelled")
+        return BoundMethod(obj, pf)
+
+    def scalar_attr_kind(self, cls, name):
+        """'int' / 'real' / 'bool' when every assignment `self.<name> = ...` in the class is a numeric constant or an
+        arithmetic update of the attribute itself (a counter); None otherwise."""
+        dotted, _, cname = (cls or "").rpartition(".")
+        if not cls or not self.repo.has_module(dotted):
+            return None
+        rec = self.repo.module(dotted).classes.get(cname)
+        if not rec:
+            return None
+        kinds = set()
+        for n in ast.walk(rec["node"]):
+            tgt = None
+            if isinstance(n, ast.Assign) and len(n.targets) == 1:
+                tgt, val = n.targets[0], n.value
+            elif isinstance(n, ast.AnnAssign) and n.value is not None:
+                tgt, val = n.target, n.value
+            elif isinstance(n, ast.AugAssign):
+                tgt, val = n.target, None
+            if not (isinstance(tgt, ast.Attribute) and tgt.attr == name and isinstance(tgt.value, ast.Name) and tgt.value.id == "self"):
+                continue
+            if val is None:
+                continue  # self.x += ... keeps the kind
+            if isinstance(val, ast.Constant) and isinstance(val.value, bool):
+                kinds.add("bool")
+            elif isinstance(val, ast.Constant) and isinstance(val.value, int):
+                kinds.add("int")
+            elif isinstance(val, ast.Constant) and isinstance(val.value, float):
+                kinds.add("real")
+            elif isinstance(val, ast.BinOp) and any(isinstance(m, ast.Attribute) and m.attr == name for m in ast.walk(val)):
+                continue  # self.x = self.x + 1
+            else:
+                return None
+        return kinds.pop() if len(kinds) == 1 else None
 
     def class_assigns_attr(self, cls, name, _depth=0):
         if not cls or _depth > 5:
@@ -1208,14 +1273,27 @@ class Interp:
                     cls = self.repo.module(dotted).classes.get(cname)
                     if cls and name in cls["consts"]:
                         return self.eval(cls["consts"][name], {}, self.repo.module(dotted))
-            ga = self.find_method(obj, "__getattr__")
-            if ga is not None:
-                return self.call_value(ga, [name], {})
             if self.class_assigns_attr(obj.cls, name):
+                kind = self.scalar_attr_kind(obj.cls, name)
+                if kind is not None:
+                    # a scalar the class keeps (e.g. a call counter) that the contract does not describe: ANY value.
+                    # Obligations that discharge hold whatever it is; a refutation that needs a particular value of it
+                    # is reported as undecided (spec._run_unit), because the class may maintain an invariant on it.
+                    sym = {"int": z3.Int, "real": z3.Real, "bool": z3.Bool}[kind](f"unknown_attr_{name}")
+                    obj.attrs[name] = sym
+                    self.cx.ghost.setdefault("havoc_attrs", set()).add(name)
+                    return sym
                 # the real object would carry this attribute (some method of its class assigns it) but the contract's
                 # pre-state does not describe it: the function reads state outside the contract -> undecided
                 raise Unsupported(f"attribute {name!r} of {obj.cls} is assigned by the class but not described by the contract's pre-state")
-            raise PyRaise("AttributeError", (name,))
+            ga = self.find_method(obj, "__getattr__")
+            if ga is not None:
+                return self.call_value(ga, [name], {})
+            # the generator's object model is an approximation (class attributes, descriptors, records ...): an
+            # attribute it cannot find is "cannot decide", not an AttributeError of the code under verification
+            if obj.cls is None:
+                raise PyRaise("AttributeError", (name,))  # a plain record built by a contract: it has exactly its fields
+            raise Unsupported(f"attribute {name!r} not found on the modelled object of class {obj.cls}")
         if isinstance(obj, ModelObject):
             return obj.pv_getattr(self.cx, name)
         if isinstance(obj, ModuleRef):
@@ -1232,7 +1310,7 @@ class Interp:
             if r:
                 m, cn, node = r
                 return PyFunc(f"{m.dotted}.{cn}.{node.name}", m, cn, node)
-            raise PyRaise("AttributeError", (name,))
+            raise Unsupported(f"attribute {name!r} of class {obj.name} is not modelled")
         if isinstance(obj, dict):
             if name in ("get", "items", "keys", "values", "pop", "copy", "update", "setdefault"):
                 return Builtin("dict." + name, _dict_method(obj, name))
@@ -1276,10 +1354,12 @@ class Interp:
                 raise PyRaise("IndexError", ("list index out of range",)) from None
         if isinstance(cont, str):
             return cont[idx]
+        if isinstance(cont, Obj) and getattr(cont, "record_fields", None) and isinstance(idx, int):
+            return cont.attrs[cont.record_fields[idx]]
         if isinstance(cont, Obj):
             m = self.find_method(cont, "__getitem__")
             if m is None:
-                raise PyRaise("TypeError")
+                raise Unsupported(f"subscript of an object of class {cont.cls} (no __getitem__ the generator can run)")
             return self.call_value(m, [idx], {})
         if isinstance(cont, ModelObject):
             return cont.pv_getitem(self.cx, idx)
@@ -1358,12 +1438,57 @@ class Interp:
             init = self.find_method(obj, "__init__")
             if init is not None:
                 self.call_value(init, args, kwargs)
+                return obj
+            rec = f.mod.classes.get(f.name) if hasattr(f.mod, "classes") else None
+            if rec is not None:
+                decos = {ast.unparse(d.func if isinstance(d, ast.Call) else d).split(".")[-1] for d in rec["node"].decorator_list}
+                is_record = any(b.split(".")[-1] == "NamedTuple" for b in rec["bases"]) or "dataclass" in decos
+                if is_record:
+                    return self.make_record(f, rec, args, kwargs)
+            if args or kwargs or rec is None:
+                raise Unsupported(f"construction of {f.qual}: the class has no __init__ the generator can run")
             return obj
+        if isinstance(f, LocalFunc):
+            pf = PyFunc(f"<local {f.node.name}>", f.mod, None, f.node)
+            env = dict(f.env)
+            env.update(self.bind_args(pf, args, kwargs))
+            saved = self.cx.loc
+            try:
+                self.exec_block(f.node.body, env, f.mod)
+            except ReturnSignal as r:
+                return r.value
+            finally:
+                self.cx.loc = saved
+            return None
         if isinstance(f, ModelObject) and hasattr(f, "pv_call"):
             return f.pv_call(self, args, kwargs)
         if callable(f) and getattr(f, "_pyvc_model", False):
             return f(self, *args, **kwargs)
         raise Unsupported(f"call of {f!r}")
+
+    def make_record(self, f, rec, args, kwargs):
+        """typing.NamedTuple / @dataclass: fields are the annotated class-level names, in order (defaults allowed)."""
+        fields, defaults = [], {}
+        for st in rec["node"].body:
+            if isinstance(st, ast.AnnAssign) and isinstance(st.target, ast.Name):
+                fields.append(st.target.id)
+                if st.value is not None:
+                    defaults[st.target.id] = st.value
+        if len(args) > len(fields):
+            raise PyRaise("TypeError", (f"{f.name}() takes {len(fields)} positional arguments",))
+        vals = dict(zip(fields, args))
+        for k, v in kwargs.items():
+            if k not in fields or k in vals:
+                raise PyRaise("TypeError", (f"{f.name}() got an unexpected or repeated keyword argument {k!r}",))
+            vals[k] = v
+        for k in fields:
+            if k not in vals:
+                if k not in defaults:
+                    raise PyRaise("TypeError", (f"{f.name}() missing argument {k!r}",))
+                vals[k] = self.eval(defaults[k], {}, f.mod)
+        obj = Obj(f.qual, **{k: vals[k] for k in fields})
+        obj.record_fields = tuple(fields) if any(b.split(".")[-1] == "NamedTuple" for b in rec["bases"]) else None
+        return obj
 
     def call_pyfunc(self, f: PyFunc, args, kwargs):
         cx = self.cx
@@ -1396,13 +1521,13 @@ class Interp:
             else:
                 di = i - (len(params) - nd)
                 if di < 0:
-                    raise PyRaise("TypeError", (f"missing argument {p}",))
+                    raise Unsupported(f"call of {f.qual}: no value for parameter {p} (signature as the generator models it)")
                 env[p] = self.eval(defaults[di], {}, f.mod)
         if len(args) > len(params):
             if a.vararg:
                 env[a.vararg.arg] = tuple(args[len(params) :])
             else:
-                raise PyRaise("TypeError", ("too many arguments",))
+                raise Unsupported(f"call of {f.qual}: more positional arguments than parameters (signature as the generator models it)")
         elif a.vararg:
             env[a.vararg.arg] = ()
         for p, d in zip(a.kwonlyargs, a.kw_defaults):
@@ -1411,11 +1536,11 @@ class Interp:
             elif d is not None:
                 env[p.arg] = self.eval(d, {}, f.mod)
             else:
-                raise PyRaise("TypeError", (f"missing keyword argument {p.arg}",))
+                raise Unsupported(f"call of {f.qual}: no value for keyword parameter {p.arg}")
         if a.kwarg:
             env[a.kwarg.arg] = kwargs
         elif kwargs:
-            raise PyRaise("TypeError", (f"unexpected keyword {list(kwargs)}",))
+            raise Unsupported(f"call of {f.qual}: unexpected keyword {list(kwargs)}")
         if f.cname:
             env["__class__"] = f.cname
         return env
@@ -1439,6 +1564,10 @@ class Interp:
 
 
 KNOWN_CONTRACTS: set = set()  # qualified names of repository functions some Spec is written for (filled by pyvc.check)
+
+
+def _looks_like_exception_class(name: str) -> bool:
+    return name in ("SystemExit", "KeyboardInterrupt", "StopIteration", "Exception", "BaseException") or name.endswith("Error") or name.endswith("Exception") or name.endswith("Warning")
 
 
 _DROPPED_DECORATORS = {"numba.njit", "njit", "numba.jit", "jit", "staticmethod", "abstractmethod", "abc.abstractmethod"}
